@@ -18,7 +18,7 @@ RULE = (
     "followed by mutation of the copy, optimize(k), and a fresh-graph differential (every query answers bit-identically on a graph rebuilt from the current state). Invariant after every step: a bit-pattern snapshot of every pose, estimate, offset, "
     "information matrix, id, vertex_ids, fixed flag and object identity equals the model snapshot (the model is updated only by optimize: vertex "
     "poses replaced, first fixed flag set iff asked); every query is issued twice and must return bit-identical values. Non-trivial = the history "
-    "contains a numeric-Jacobian call between two optimizer runs, or the graph has a shared object."
+    "contains a numeric-Jacobian call between two optimizer runs, or the graph has a shared object. A quarter of the graphs carry a free vertex that no edge refers to (singular solve; flags and everything but poses must still be unchanged)."
 )
 BUDGET = {"quick": 16 * 300, "thorough": 16 * 4000}
 TOLERANCES = {"state": "bitwise (float64 bit patterns, ids, flags, object identity)", "repeated query": "bitwise identical return values"}
@@ -139,6 +139,16 @@ def strategy_(g):
         for v in case["verts"]:
             v["fixed"] = False
         case["unanchored"] = True
+    if g.choice([False, False, False, True]):
+        # a free vertex that no edge refers to (a landmark not observed yet): optimize() solves a singular system then, and
+        # still only poses may change - in particular no fixed flag other than the first one (round 10, C15-m)
+        used = set(v["id"] for v in case["verts"])
+        k = rnd.choice([case["base"], R.POINT_OF[case["base"]]])
+        p = g.pose(k, s=10.0)
+        nid = max(used) + rnd.randint(1, 5) if rnd.random() < 0.7 else min(used) - rnd.randint(1, 5)
+        # appended last: the sharing tables above refer to vertices by position
+        case["verts"].append({"id": nid, "p": p, "fixed": False, "truth": list(p["v"]), "role": "isolated"})
+        case["isolated_free"] = True
     nops = g.integer(3, 50)
     ops = []
     for _ in range(nops):
